@@ -183,7 +183,8 @@ end
 
 `sparseRows dof_parentid` is the row layout of the lower-triangular CSR matrix `M` (`M_rownnz`, `M_rowadr`, `M_colind` of the
 compiled model, compared exactly with the tree-compiled arrays by the driver op `diagadr`); `diagAdr` is the index expression
-`m.M_rowadr + m.M_rownnz - 1` of the sparse branch of `euler` in mjx/_src/forward.py (extracted from the source with ast by the check). -/
+`m.M_rowadr + m.M_rownnz - 1` of the sparse branch of `euler` in mjx/_src/forward.py (extracted from the source with ast by the check).  Rows of dofs the compiler marks simple (`dof_simplenum > 0`, free bodies
+with diagonal inertia) are reduced to the diagonal entry alone; models containing such dofs below a parent dof are left out of the tie. -/
 
 /-- rows of the lower-triangular CSR inertia matrix from `dof_parentid`: row i = row of its parent dof followed by i
     (ancestor dofs in increasing order, the diagonal last); a parent that is not an earlier dof gives a root row -/
